@@ -3,6 +3,8 @@ import Driver.Ops.Integer
 import Driver.Ops.L2
 import Driver.Ops.L2Oer
 import Driver.Ops.L2Uper
+import Driver.Ops.L2Xer
+import Driver.Ops.BerStream
 import Driver.Ops.Real
 import Driver.Ops.OidTime
 import Driver.Ops.Fixer
@@ -49,7 +51,9 @@ def l2handlers : List Driver.Ops.L2.SubHandler := [
   Driver.Ops.L2.derHandler,
   Driver.Ops.L2Oer.oerHandler,
   Driver.Ops.L2Uper.uperHandler,
-  Driver.Ops.CompileDescr.handler
+  Driver.Ops.CompileDescr.handler,
+  Driver.Ops.L2Xer.xerHandler,
+  Driver.Ops.BerStream.handler
 ]
 
 /-- L2 lines carry state (the current module): `l2mod <module-sexp>` selects it,
